@@ -929,7 +929,8 @@ type c19dRecImpl struct {
 	Live       []int          `json:"live"`
 	VictimView int            `json:"victim_view_before"` // view of V when the loss ends
 	Committed  int            `json:"committed_before"`   // live validators that had committed when the loss ends
-	Rounds     int            `json:"rounds"`             // synchronous rounds until every live service handed the block over
+	Rounds     int            `json:"rounds"`             // synchronous rounds until every live ledger has the block
+	Relayed    int            `json:"relayed"`            // live validators that got it by relay, not from their own service
 	Decided    bool           `json:"decided"`
 	SameBlock  bool           `json:"same_block"`
 	Accepted   bool           `json:"accepted"` // own ledgers and the independent ledger
@@ -1072,6 +1073,10 @@ func c19dRunRecovery(co *caseOut, raw json.RawMessage) error {
 			}
 		}
 		V := live[((in.Victim%len(live))+len(live))%len(live)]
+		X := live[len(live)-1]
+		if X == V {
+			X = live[0]
+		}
 		impl.Victim, impl.Live = V, live
 		for k := 0; k < in.Txs; k++ {
 			tx := net.tx(1_0000000, h+50)
@@ -1133,7 +1138,14 @@ func c19dRunRecovery(co *caseOut, raw json.RawMessage) error {
 				if done {
 					break
 				}
-				for _, i := range live {
+				order := append([]int{}, live...)
+				for k, i := range order { // V's timer fires last: it has then seen everybody alive
+					if i == V {
+						order = append(append(order[:k:k], order[k+1:]...), V)
+						break
+					}
+				}
+				for _, i := range order {
 					if view(i) > v || net.node(i).find(3, h, v) != nil {
 						continue
 					}
@@ -1142,7 +1154,8 @@ func c19dRunRecovery(co *caseOut, raw json.RawMessage) error {
 						if s.typ != 3 && s.typ != 4 {
 							return false // only requests for a view change / for recovery get through
 						}
-						return !(lastStep && lost[3] && to == V && s.typ == 3)
+						// "cv lost": the ChangeView of one live validator X never reaches V, which then holds M-1
+						return !(lastStep && lost[3] && to == V && s.typ == 3 && from == X)
 					}, false)
 				}
 			}
@@ -1173,9 +1186,31 @@ func c19dRunRecovery(co *caseOut, raw json.RawMessage) error {
 			}
 		}
 		// synchrony
+		// a validator whose service has produced the block stops talking (dBFT: BlockSent) and the server relays the
+		// block: the others may get it that way instead of assembling it themselves
+		relay := func() {
+			var b *block.Block
+			for _, i := range live {
+				if nd := net.node(i); len(nd.put) > 0 && nd.puterr[0] == nil {
+					b = nd.put[0]
+				}
+			}
+			if b == nil {
+				return
+			}
+			for _, i := range live {
+				if nd := net.node(i); len(nd.put) == 0 && nd.bc.BlockHeight() < h {
+					if err := nd.bc.AddBlock(b); err != nil {
+						net.violate("ledger of validator %d rejects the relayed block committed after recovery: %v", i, err)
+					} else {
+						impl.Relayed++
+					}
+				}
+			}
+		}
 		decided := func() bool {
 			for _, i := range live {
-				if len(net.node(i).put) == 0 {
+				if net.node(i).bc.BlockHeight() < h {
 					return false
 				}
 			}
@@ -1186,6 +1221,7 @@ func c19dRunRecovery(co *caseOut, raw json.RawMessage) error {
 			impl.Rounds++
 			net.node(V).drv.Timeout()
 			pump(everything, true)
+			relay()
 			if decided() {
 				break
 			}
@@ -1195,6 +1231,7 @@ func c19dRunRecovery(co *caseOut, raw json.RawMessage) error {
 				}
 			}
 			pump(everything, true)
+			relay()
 		}
 		impl.Decided = decided()
 		impl.FinalView = view(V)
@@ -1204,7 +1241,7 @@ func c19dRunRecovery(co *caseOut, raw json.RawMessage) error {
 				s := net.node(i).drv.State()
 				st = append(st, fmt.Sprintf("%d:view%d,commit=%v,block=%v", i, s.View, s.CommitSent, s.BlockSent))
 			}
-			net.violate("after the loss ends, %d synchronous rounds (timers fire, everything is delivered, recovery included) do not make every live validator produce the block at view >= %d: %v",
+			net.violate("after the loss ends, %d synchronous rounds (timers fire, everything is delivered, recovery included) do not bring the block to every live validator at view >= %d: %v",
 				c19dMaxRounds, W, st)
 			return
 		}
@@ -1212,6 +1249,9 @@ func c19dRunRecovery(co *caseOut, raw json.RawMessage) error {
 		var blk *block.Block
 		for _, i := range live {
 			nd := net.node(i)
+			if len(nd.put) == 0 {
+				continue // got the block by relay
+			}
 			b := nd.put[0]
 			if blk == nil {
 				blk = b
